@@ -717,6 +717,10 @@ class CutoffPowerLawEnergyFluxProfile(
 
         self.Ecut = Ecut
 
+        # Define the parameters which can be set via the `set_params`
+        # method.
+        self.param_names = ('E0', 'gamma', 'Ecut')
+
     @property
     def Ecut(self):
         """The energy cut value.
@@ -814,6 +818,11 @@ class LogParabolaPowerLawEnergyFluxProfile(
 
         self.alpha = alpha
         self.beta = beta
+
+        # Define the parameters which can be set via the `set_params`
+        # method. The spectral index gamma of the base class is not used by
+        # this profile.
+        self.param_names = ('E0', 'alpha', 'beta')
 
     @property
     def alpha(self):
